@@ -21,7 +21,7 @@ pub fn generate(prop: &str, tier: &str, seed: u64) -> Vec<Vec<String>> {
         "C13" => spec::gen_c13(tier, seed),
         "C01" => { let mut v = flwgen::gen_c01(tier, seed); v.extend(flwgen::gen_c01_unrotatable(tier, seed)); v }
         "C03" => conc::gen_c03(tier, seed),
-        "C20" => { let mut v = fmt::gen_c20(tier, seed); v.extend(robust::gen_c20_recursive(tier, seed)); v }
+        "C20" => { let mut v = fmt::gen_c20(tier, seed); v.extend(robust::gen_c20_recursive(tier, seed)); v.extend(robust::gen_bufframe(tier, seed)); v }
         "C14n" => names::gen_names_cases("C14", tier, seed),
         "C16n" => names::gen_names_cases("C16", tier, seed),
         "C10" => robust::gen_c10(tier, seed),
@@ -137,6 +137,7 @@ pub fn child_main(args: &[String]) {
         Some("recurse") => robust::child_recurse(&args[1..]),
         Some("buflog") => robust::child_buflog(&args[1..]),
         Some("errchan") => stdout::child_errchan(&args[1..]),
+        Some("bufframe") => robust::child_bufframe(&args[1..]),
         Some("concstd") => conc::child_concstd(&args[1..]),
         _ => {
             eprintln!("unknown child mode");
